@@ -145,7 +145,7 @@ def check_C06(ctx):
     if tv.drifts:
         log("DRIFT (mechanism differs from TokenStore.tla, no property involved): %d reports, first: %s"
             % (len(tv.drifts), tv.drifts[0]))
-    tv_verdict(ctx, tv, trace, "token-store MBT")
+    tv_verdict(ctx, tv, trace, "token-store-mbt")
 
 
 # =========================================================================================== C07
@@ -252,4 +252,168 @@ def check_C07(ctx):
     if tv.drifts:
         log("DRIFT (mechanism differs from PeerStore.tla, no property involved): %d reports, first: %s"
             % (len(tv.drifts), tv.drifts[0]))
-    tv_verdict(ctx, tv, trace, "peer-store MBT")
+    tv_verdict(ctx, tv, trace, "peer-store-mbt")
+
+
+# ================================================================================= C08 / C09 / C10
+
+TABLE_CFG = """SPECIFICATION Spec
+CONSTANTS
+  K = 2
+  BITS = 4
+  SELF = 5
+  IDS = {%(ids)s}
+  RIDS = {12}
+  ADDRS = {"a4:1"}
+  ROUTERS = {"r4:9"}
+  DELTAS = {%(deltas)s}
+  MAXSTEPS = %(steps)d
+  LowestFirst = %(lowest)s
+  GEN = %(gen)s
+%(invs)s
+CHECK_DEADLOCK FALSE
+"""
+TABLE_IDS = "5, 4, 7, 1, 13, 12, 10"
+TABLE_DELTAS = "1, 30000, 899999, 900000"
+TABLE_TV_CFG = """SPECIFICATION Spec
+CONSTANT StrictProps = {%s}
+POSTCONDITION Accepted
+CHECK_DEADLOCK FALSE
+"""
+
+
+def gen_table_random(path, seed_, count, depth):
+    """Seeded random behaviours for the real routing table (K=8, 160 buckets): clustered ids so that
+    buckets fill, split deeply and evict; mixed standings, repeats, queries, time around 15 min / 30 s."""
+    import random
+    rnd = random.Random(seed_)
+    with open(path, "w") as f:
+        for b in range(count):
+            selfbits = "".join(rnd.choice("01") for _ in range(24))
+            ids = [selfbits]  # the local id itself (must never be admitted)
+            flip = lambda s, i: s[:i] + ("1" if s[i] == "0" else "0") + s[i + 1:]
+            # ids sharing 0..20 leading bits with self; several per prefix length (to overflow buckets)
+            shape = rnd.choice(["deep", "flat", "mixed"])
+            for _ in range(rnd.randint(20, 45)):
+                if shape == "deep":
+                    p = rnd.randint(0, 20)
+                elif shape == "flat":
+                    p = rnd.randint(0, 2)
+                else:
+                    p = rnd.choice([0, 0, 1, 1, 2, 3, 5, 8, 12, 16, 20])
+                tail = "".join(rnd.choice("01") for _ in range(24 - p - 1))
+                ids.append(flip(selfbits, p)[:p + 1] + tail)
+            ids.append(selfbits[:23] + ("1" if selfbits[23] == "0" else "0"))  # differs in the last bit
+            full = lambda s: s  # leading bits; the rest of the 160 bits is zero
+            # ids that differ from self only in bit 159 / equal up to bit 24
+            addrs = ["a4:1", "a4:2", "b4:1", "c4:7", "r4:9", "d6:5"]
+            routers = ["r4:9"]
+            ops = []
+            known = []
+            for _ in range(depth):
+                r = rnd.random()
+                if r < 0.40:
+                    i = rnd.choice(ids)
+                    a = rnd.choice(addrs) if rnd.random() < 0.3 else "a4:1"
+                    ops.append({"op": rnd.choice(["good", "good", "quest"]), "id": full(i), "addr": a})
+                    known.append((i, a))
+                elif r < 0.60 and known:
+                    i, a = rnd.choice(known)
+                    ops.append({"op": "local", "id": full(i), "addr": a})
+                elif r < 0.70 and known:
+                    i, a = rnd.choice(known)
+                    ops.append({"op": "remote", "id": full(i), "addr": a})
+                elif r < 0.73:
+                    ops.append({"op": "remote", "id": full(rnd.choice(ids)), "addr": rnd.choice(addrs)})
+                elif r < 0.80:
+                    tg = rnd.choice(ids + [selfbits]) if rnd.random() < 0.7 else "".join(rnd.choice("01") for _ in range(160))
+                    ops.append({"op": "closest", "target": tg})
+                else:
+                    ops.append({"op": "adv", "d": rnd.choice([1, 1000, 29999, 30000, 60000, 450000, 899999, 900000, 900001,
+                                                               rnd.randint(1, 1000000)])})
+            f.write(json.dumps({"meta": {"bits": 24, "self": selfbits, "routers": routers}, "ops": ops}) + "\n")
+    return count
+
+
+def table_pipeline(ctx, strict):
+    """MC of the table design + binding of the real RoutingTable (shared by C08, C09, C10)."""
+    q = ctx.quick
+    invs = "INVARIANT ChecksOK"
+    steps = 4 if q else 5
+    res = vlib.tlc("mc/MC_Table.tla", ctx.cfg("mc.cfg", TABLE_CFG % dict(
+        ids=TABLE_IDS, deltas=TABLE_DELTAS, steps=steps, lowest="TRUE", gen="FALSE", invs=invs)),
+        workers=8 if q else 16, timeout=900 if q else 3400, heap="8g" if q else "24g")
+    vlib.require_mc_ok(res, "MC_Table")
+    ctx.add_mc("MC_Table(K=2,4-bit ids,steps=%d)" % steps, res)
+    if not q:
+        sim = vlib.tlc("mc/MC_Table.tla", ctx.cfg("mcsim.cfg", TABLE_CFG % dict(
+            ids=TABLE_IDS, deltas=TABLE_DELTAS, steps=14, lowest="TRUE", gen="FALSE", invs=invs)),
+            workers=8, timeout=1800, simulate=300, depth=15, seed_=vlib.seed())
+        if sim.inv_violated:
+            raise ToolError("MC_Table simulate violated %s" % sim.inv_violated)
+        ctx.add_mc("MC_Table(simulate,depth=14)", sim)
+    # vacuity guard: the pinned-tree replacement policy (first lower slot) must violate C08 in the model
+    neg = vlib.tlc("mc/MC_Table.tla", ctx.cfg("neg.cfg", TABLE_CFG % dict(
+        ids=TABLE_IDS, deltas=TABLE_DELTAS, steps=3, lowest="FALSE", gen="FALSE", invs=invs)), workers=4, timeout=900)
+    vlib.require_mc_fails(neg, "ChecksOK", "LowestFirst=FALSE")
+    # binding 1: every behaviour of the small model up to depth d, replayed on the real table (ids embedded)
+    beh = ctx.path("behaviours.ndjson")
+    g1 = vlib.tlc("mc/MC_Table.tla", ctx.cfg("gen1.cfg", TABLE_CFG % dict(
+        ids="5, 4, 13, 12, 10", deltas="30000, 899999, 900000", steps=3 if q else 4, lowest="TRUE", gen="TRUE",
+        invs="INVARIANT Emit")), workers=1, timeout=1800)
+    tmp = beh + ".1raw"
+    n1 = vlib.extract_replays(g1, tmp)
+    with open(beh + ".1", "w") as f:
+        for line in open(tmp):
+            f.write(json.dumps({"meta": {"bits": 4, "self": 5, "routers": ["r4:9"]}, "ops": json.loads(line)}) + "\n")
+    # binding 2: production constants, seeded random long behaviours
+    n2 = gen_table_random(beh + ".2", vlib.seed(), 25 if q else 300, 90 if q else 160)
+    if n1 == 0:
+        raise ToolError("behaviour generation produced nothing")
+    with open(beh, "w") as f:
+        for p in (beh + ".1", beh + ".2"):
+            f.write(open(p).read())
+    trace = ctx.path("trace.ndjson")
+    # small-model behaviours: a sweep of closest-node probes at the end; long behaviours: probes after every operation
+    vlib.vh(["table", "--in", beh + ".1", "--out", trace + ".1", "--probe", "1"])
+    vlib.vh(["table", "--in", beh + ".2", "--out", trace + ".2", "--probe", "2"])
+    with open(trace, "w") as f:
+        for p in (trace + ".1", trace + ".2"):
+            f.write(open(p).read())
+    tv = vlib.validate_trace("trace/TableTrace.tla", ctx.cfg("tv.cfg", TABLE_TV_CFG % ", ".join('"%s"' % s for s in strict)),
+                             trace, timeout=3000, heap="12g")
+    total, distinct = vlib.count_distinct_behaviours(beh)
+    ctx.add_tv("table", tv, total, distinct)
+    ctx.cov["rule"] = ("behaviours = all operation sequences (offer as responder / as hearsay, query sent, query received, time) of "
+                       "the small model MC_Table up to depth %d, replayed on the real RoutingTable with the model ids embedded as "
+                       "leading bits, plus %d seeded random behaviours of %d operations at production constants (K=8, clustered ids "
+                       "forcing deep splits and evictions); after EVERY operation the full table is dumped and the statements are "
+                       "evaluated; every behaviour is distinct by content hash and non-trivial (>= 3 operations)"
+                       % (3 if q else 4, n2, 90 if q else 160))
+    ctx.cov["samples"] = vlib.head_lines(beh + ".1", 2, 400) + vlib.head_lines(beh + ".2", 1, 700) + vlib.head_lines(trace, 3, 500)
+    if tv.drifts:
+        log("DRIFT (mechanism differs from RoutingTable.tla, no property involved): %d reports, first: %s"
+            % (len(tv.drifts), tv.drifts[0]))
+    tv_verdict(ctx, tv, trace, "routing-table-mbt")
+
+
+TABLE_ASSUME = [
+    "TLC and the CommunityModules are correct; tokio's paused clock drives the crate clock (H1)",
+    "the harness (vh table) transports table dumps faithfully; hook H2 wrappers only forward to RoutingTable",
+    "MC exhaustive for K=2 / 4-bit ids up to MAXSTEPS events; production constants on the replayed behaviours only",
+]
+
+
+def check_C08(ctx):
+    ctx.assumptions += TABLE_ASSUME
+    table_pipeline(ctx, ["C08"])
+
+
+def check_C09(ctx):
+    ctx.assumptions += TABLE_ASSUME + ["the handler's filter(family).take(8) composition is checked on the wire by the server traces (C05)"]
+    table_pipeline(ctx, ["C09"])
+
+
+def check_C10(ctx):
+    ctx.assumptions += TABLE_ASSUME + ["'until it answers again' is read as 'or is admitted anew by a later mention' (DESIGN §5 C10)"]
+    table_pipeline(ctx, ["C10"])
